@@ -1,6 +1,6 @@
 CONSTANTS
   Impl = "asis"
-  BadClasses = {"unparsable", "unknown-type", "no-mid", "no-ufrag", "no-pwd", "no-fingerprint", "bad-fingerprint", "bad-candidate", "bad-apt"}
+  BadClasses = {"unparsable", "unknown-type", "no-mid", "no-ufrag", "no-pwd", "no-fingerprint", "bad-fingerprint", "bad-candidate", "bad-apt", "planb-shape-no-mid"}
 INIT Init
 NEXT Next
 VIEW view
